@@ -35,7 +35,9 @@ ASSUMPTIONS = [
     "inner whitespace may collapse (C12)",
 ]
 
-MENU = ["ply", "plywool", "plyw", "sys", "xyx", "SysOp", "mo-ply", "r.sys", "sea", "seattle", "Straßen"]
+MENU = ["ply", "plywool", "plyw", "sys", "xyx", "SysOp", "mo-ply", "r.sys", "sea", "seattle", "Straßen",
+        # words with punctuation that occur inside reserved words (access-group, LAB.NET-1)
+        "ss-gr", "b.net"]
 USER_RESERVED = "PlyRouter"
 SALTS = ["saltForTest", "seedsalt"]
 
@@ -199,7 +201,9 @@ class ListsPart(Part):
         res = Res()
         words = case["words"]
         reserved = builtin_reserved()
-        for user_res in (None, USER_RESERVED):
+        for user_res in (None, USER_RESERVED, "LAB.NET-1"):
+            if user_res == "LAB.NET-1" and "b.net" not in words:
+                continue
             for salt in SALTS:
                 if "lines" in case:
                     if case.get("user_res") != user_res or case.get("salt") != salt:
